@@ -6,12 +6,12 @@ import NixModel.Lemmas.C20Hist
 namespace Nix.Store.C20
 open Nix.Store Nix.Store.Graph Nix.Store.Lemmas
 
-variable {N M : Nat}
+variable {S : Nat → Prop} {M : Nat} {A : Nat → Prop}
 
 /-! ## link lists -/
 
-theorem cLinks_ge {g : Graph} (hI : SideInv N M g) {owner : Nat} {cname : String} (ho : N ≤ owner)
-    {l : String × Nat} (hl : l ∈ cLinks g (g.child? owner cname)) : N ≤ l.2 := by
+theorem cLinks_ge {g : Graph} (hI : SideInv S M g) {owner : Nat} {cname : String} (ho : S owner)
+    {l : String × Nat} (hl : l ∈ cLinks g (g.child? owner cname)) : S l.2 := by
   unfold cLinks at hl
   cases hc : g.child? owner cname with
   | none => rw [hc] at hl; cases hl
@@ -36,13 +36,13 @@ theorem appendItem_mem {g : Graph} {c : Cont} {key : Key} {k : Nat} (h : appendI
     · cases h
 
 /-- `LinkContainer.append` / `SourceLinkContainer.append` -/
-theorem lu_contAppend {g g' : Graph} (hI : SideInv N M g) {c : Cont} {key : Key} (ho : N ≤ c.owner.key)
-    (hnode : c.node = g.child? c.owner.key c.cname) (hkey : ∀ k, key = .ent k → N ≤ k)
-    (hop : contAppend g c key = .ok g') : LocalUpd N M g g' := by
+theorem lu_contAppend {g g' : Graph} (hI : SideInv S M g) {c : Cont} {key : Key} (ho : S c.owner.key)
+    (hnode : c.node = g.child? c.owner.key c.cname) (hkey : ∀ k, key = .ent k → S k)
+    (hop : contAppend g c key = .ok g') : LocalUpd S M g g' := by
   rw [contAppend_eq] at hop
-  have main : ∀ k, appendItem g c key = .ok k → appendTail g c k = .ok g' → LocalUpd N M g g' := by
+  have main : ∀ k, appendItem g c key = .ok k → appendTail g c k = .ok g' → LocalUpd S M g g' := by
     intro k hk ht
-    have hkN : N ≤ k := by
+    have hkN : S k := by
       rcases appendItem_mem hk with h | ⟨l, hl, e⟩
       · exact hkey k h
       · rw [hnode] at hl; rw [← e]; exact cLinks_ge hI ho hl
@@ -100,11 +100,11 @@ theorem contGet_mem {g : Graph} {c : Cont} {key : Key} {l : String × Nat} (h : 
     | exact featScan_mem ‹_›
 
 /-- an id carried by a node of the side -/
-def NewId (N : Nat) (g : Graph) (i : String) : Prop := ∃ k, N ≤ k ∧ g.entityId k = some i
+def NewId (S : Nat → Prop) (g : Graph) (i : String) : Prop := ∃ k, S k ∧ g.entityId k = some i
 
-theorem bfsIds_new {g : Graph} (hI : SideInv N M g) (sub : String) :
-    ∀ (fuel : Nat) (queue : List Nat) (acc : List String), (∀ q ∈ queue, N ≤ q) → (∀ i ∈ acc, NewId N g i) →
-      ∀ i ∈ bfsIds g sub fuel queue acc, NewId N g i := by
+theorem bfsIds_new {g : Graph} (hI : SideInv S M g) (sub : String) :
+    ∀ (fuel : Nat) (queue : List Nat) (acc : List String), (∀ q ∈ queue, S q) → (∀ i ∈ acc, NewId S g i) →
+      ∀ i ∈ bfsIds g sub fuel queue acc, NewId S g i := by
   intro fuel
   induction fuel with
   | zero => intro queue acc _ ha i hi; unfold bfsIds at hi; exact ha i hi
@@ -114,7 +114,7 @@ theorem bfsIds_new {g : Graph} (hI : SideInv N M g) (sub : String) :
     | nil => unfold bfsIds at hi; exact ha i hi
     | cons k queue =>
       unfold bfsIds at hi
-      have hk : N ≤ k := hq k List.mem_cons_self
+      have hk : S k := hq k List.mem_cons_self
       apply ih _ _ _ _ i hi
       · intro q hq'
         rcases List.mem_append.mp hq' with h | h
@@ -136,24 +136,24 @@ theorem bfsIds_new {g : Graph} (hI : SideInv N M g) (sub : String) :
           · simp only [List.mem_singleton] at h
             exact ⟨k, hk, by rw [hid, h]⟩
 
-theorem subtreeIds_new {g : Graph} (hI : SideInv N M g) (sub : String) {k : Nat} (hk : N ≤ k) :
-    ∀ i ∈ subtreeIds g sub k, NewId N g i :=
+theorem subtreeIds_new {g : Graph} (hI : SideInv S M g) (sub : String) {k : Nat} (hk : S k) :
+    ∀ i ∈ subtreeIds g sub k, NewId S g i :=
   bfsIds_new hI sub _ [k] [] (fun q hq => by simp only [List.mem_singleton] at hq; rw [hq]; exact hk)
     (fun _ h => by cases h)
 
 /-- no node below `N` carries an id of the side -/
-theorem old_not_newId {g : Graph} (hD : IdInv N M g) {ids : List String} (hids : ∀ i ∈ ids, NewId N g i) :
-    ∀ x, x < N → ∀ i, g.entityId x = some i → i ∉ ids := by
+theorem old_not_newId {g : Graph} (hD : IdInv S M A g) {ids : List String} (hids : ∀ i ∈ ids, NewId S g i) :
+    ∀ x, ¬ S x → ∀ i, g.entityId x = some i → i ∉ ids := by
   intro x hx i hi hmem
   obtain ⟨k, hk, hki⟩ := hids i hmem
-  obtain ⟨j, hj, e⟩ := hD.oldIds x hx i hi
-  obtain ⟨j', hj1, _, e'⟩ := hD.newIds k hk i hki
+  obtain ⟨j, e, hA⟩ := hD.restIds x hx i hi
+  obtain ⟨j', e', hnA⟩ := hD.sideIds k hk i hki
   have := idStr_inj (e.symm.trans e')
-  omega
+  exact hnA (this ▸ hA)
 
 theorem lu_h5Delete {g g' : Graph} {grp parent : Nat} {lname x : String} {depth : Nat} {die : Bool}
-    (hg : N ≤ grp) (hp : N ≤ parent) (hop : h5Delete g grp parent lname depth x die = .ok g') :
-    LocalUpd N M g g' := by
+    (hg : S grp) (hp : S parent) (hop : h5Delete g grp parent lname depth x die = .ok g') :
+    LocalUpd S M g g' := by
   unfold h5Delete at hop
   simp only at hop
   split at hop
@@ -165,9 +165,9 @@ theorem lu_h5Delete {g g' : Graph} {grp parent : Nat} {lname x : String} {depth 
       · cases hop; exact lu_delLink g _ hg
 
 /-- global deletion of the id of a node of the side, if it has one -/
-theorem lu_delOne {g g' : Graph} (hD : IdInv N M g) {k : Nat} (hk : N ≤ k)
+theorem lu_delOne {g g' : Graph} (hD : IdInv S M A g) {k : Nat} (hk : S k)
     (hop : (match g.entityId k with | some i => Except.ok (g.deleteAll [i]) | none => (Except.ok g : Except Err Graph))
-      = .ok g') : LocalUpd N M g g' := by
+      = .ok g') : LocalUpd S M g g' := by
   cases hid : g.entityId k with
   | none => rw [hid] at hop; cases hop; exact LocalUpd.refl g
   | some i =>
@@ -178,16 +178,16 @@ theorem lu_delOne {g g' : Graph} (hD : IdInv N M g) {k : Nat} (hk : N ≤ k)
 
 /-- `Container.__delitem__` (all flavours) on a container of a node of the side. The global
 deletions by id need `IdInv`; removing an entry of a link list does not. -/
-theorem lu_contDel {g g' : Graph} (hI : SideInv N M g) {c : Cont} {key : Key} (ho : N ≤ c.owner.key)
-    (hnode : c.node = g.child? c.owner.key c.cname) (hkey : ∀ k, key = .ent k → N ≤ k)
-    (hD : IdInv N M g ∨ c.info.flavour = .link ∨ c.info.flavour = .sourceLink)
-    (hop : contDel g c key = .ok g') : LocalUpd N M g g' := by
+theorem lu_contDel {g g' : Graph} (hI : SideInv S M g) {c : Cont} {key : Key} (ho : S c.owner.key)
+    (hnode : c.node = g.child? c.owner.key c.cname) (hkey : ∀ k, key = .ent k → S k)
+    (hD : IdInv S M A g ∨ c.info.flavour = .link ∨ c.info.flavour = .sourceLink)
+    (hop : contDel g c key = .ok g') : LocalUpd S M g g' := by
   unfold contDel at hop
   simp only at hop
   split at hop
   · cases hop
   · rename_i k hk
-    have hkN : N ≤ k := by
+    have hkN : S k := by
       cases key with
       | ent k' => simp only [Except.ok.injEq] at hk; rw [← hk]; exact hkey k' rfl
       | pos i =>
@@ -213,14 +213,14 @@ theorem lu_contDel {g g' : Graph} (hI : SideInv N M g) {c : Cont} {key : Key} (h
     · cases hfl : c.info.flavour
       all_goals (rw [hfl] at hop; simp only at hop)
       · -- plain
-        have hDD : IdInv N M g := by
+        have hDD : IdInv S M A g := by
           rcases hD with h | h | h
           · exact h
           · rw [hfl] at h; cases h
           · rw [hfl] at h; cases h
         exact lu_delOne hDD hkN hop
       · -- sections
-        have hDD : IdInv N M g := by
+        have hDD : IdInv S M A g := by
           rcases hD with h | h | h
           · exact h
           · rw [hfl] at h; cases h
@@ -228,7 +228,7 @@ theorem lu_contDel {g g' : Graph} (hI : SideInv N M g) {c : Cont} {key : Key} (h
         cases hop
         exact lu_deleteAll g _ (old_not_newId hDD (subtreeIds_new hI "sections" hkN))
       · -- sources
-        have hDD : IdInv N M g := by
+        have hDD : IdInv S M A g := by
           rcases hD with h | h | h
           · exact h
           · rw [hfl] at h; cases h
@@ -255,7 +255,7 @@ theorem lu_contDel {g g' : Graph} (hI : SideInv N M g) {c : Cont} {key : Key} (h
           exact lu_h5Delete (child_ge hI ho (hnode ▸ hcn)) ho hop
         · cases hop
       · -- features
-        have hDD : IdInv N M g := by
+        have hDD : IdInv S M A g := by
           rcases hD with h | h | h
           · exact h
           · rw [hfl] at h; cases h
@@ -265,28 +265,28 @@ theorem lu_contDel {g g' : Graph} (hI : SideInv N M g) {c : Cont} {key : Key} (h
 /-! ## calls addressed to the side, histories -/
 
 /-- the path leads to a node of the side -/
-def ResolvesNew (N : Nat) (g : Graph) (p : Path) : Prop := ∃ l, resolve g rootLoc p = some l ∧ N ≤ l.key
+def ResolvesNew (S : Nat → Prop) (g : Graph) (p : Path) : Prop := ∃ l, resolve g rootLoc p = some l ∧ S l.key
 
-def OptNew (N : Nat) (g : Graph) : Option Path → Prop
+def OptNew (S : Nat → Prop) (g : Graph) : Option Path → Prop
   | none => True
-  | some p => ResolvesNew N g p
+  | some p => ResolvesNew S g p
 
-def KeyNew (N : Nat) (g : Graph) : KeyArg → Prop
-  | .obj p => ResolvesNew N g p
+def KeyNew (S : Nat → Prop) (g : Graph) : KeyArg → Prop
+  | .obj p => ResolvesNew S g p
   | _ => True
 
 /-- the call is made on an entity of the side, and every entity handed to it lies on the side
 (`File.create_block` / `File.create_section` are calls on the file) -/
-def Addressed (N : Nat) (g : Graph) : Op → Prop
+def Addressed (S : Nat → Prop) (g : Graph) : Op → Prop
   | .createBlock _ _ => False
-  | .createSection o _ _ => o ≠ [] ∧ ResolvesNew N g o
-  | .createIn o _ _ _ extra => ResolvesNew N g o ∧ OptNew N g extra
-  | .createProperty o _ => ResolvesNew N g o
-  | .createFeature o data _ => ResolvesNew N g o ∧ OptNew N g data
-  | .del o _ key => ResolvesNew N g o ∧ KeyNew N g key
-  | .append o _ key => ResolvesNew N g o ∧ KeyNew N g key
-  | .setRole o _ t => ResolvesNew N g o ∧ OptNew N g t
-  | .setAttr p _ _ => ResolvesNew N g p
+  | .createSection o _ _ => o ≠ [] ∧ ResolvesNew S g o
+  | .createIn o _ _ _ extra => ResolvesNew S g o ∧ OptNew S g extra
+  | .createProperty o _ => ResolvesNew S g o
+  | .createFeature o data _ => ResolvesNew S g o ∧ OptNew S g data
+  | .del o _ key => ResolvesNew S g o ∧ KeyNew S g key
+  | .append o _ key => ResolvesNew S g o ∧ KeyNew S g key
+  | .setRole o _ t => ResolvesNew S g o ∧ OptNew S g t
+  | .setAttr p _ _ => ResolvesNew S g p
   | .reopen => True
 
 /-- deletion through a plain / section / source / feature container: `delete_all` by id, file-wide -/
@@ -312,8 +312,8 @@ theorem openCont_spec {g : Graph} {o : Path} {cname : String} {cont : Cont} (h :
       simp only [Option.bind_some, Option.pure_def, Option.some.injEq] at h
       exact ⟨l, rfl, by rw [← h], by rw [← h], by rw [← h]⟩
 
-theorem resolveKeyArg_ent {g : Graph} {ka : KeyArg} {key : Key} (hk : KeyNew N g ka)
-    (h : resolveKeyArg g ka = some key) : ∀ k, key = .ent k → N ≤ k := by
+theorem resolveKeyArg_ent {g : Graph} {ka : KeyArg} {key : Key} (hk : KeyNew S g ka)
+    (h : resolveKeyArg g ka = some key) : ∀ k, key = .ent k → S k := by
   intro k e
   subst e
   cases ka with
@@ -331,8 +331,8 @@ theorem resolveKeyArg_ent {g : Graph} {ka : KeyArg} {key : Key} (hk : KeyNew N g
     rw [← h]; exact hN
 
 /-- **one call**: a call addressed to the side is a local update -/
-theorem lu_step {g : Graph} (hI : SideInv N M g) {op : Op} (ha : Addressed N g op)
-    (hD : IdInv N M g ∨ isGlobalDel g op = false) : LocalUpd N M g (step g op) := by
+theorem lu_step {g : Graph} (hI : SideInv S M g) {op : Op} (ha : Addressed S g op)
+    (hD : IdInv S M A g ∨ isGlobalDel g op = false) : LocalUpd S M g (step g op) := by
   unfold step
   split
   · rename_i g' happ
@@ -379,7 +379,7 @@ theorem lu_step {g : Graph} (hI : SideInv N M g) {op : Op} (ha : Addressed N g o
           simp only [Option.some.injEq] at happ
           obtain ⟨l', hl', ho, hcn, hnode⟩ := openCont_spec hoc
           rw [hl] at hl'; cases hl'
-          have hD' : IdInv N M g ∨ cont.info.flavour = .link ∨ cont.info.flavour = .sourceLink := by
+          have hD' : IdInv S M A g ∨ cont.info.flavour = .link ∨ cont.info.flavour = .sourceLink := by
             rcases hD with h | h
             · exact .inl h
             · simp only [isGlobalDel, hoc, Bool.not_eq_eq_eq_not, Bool.not_false, Bool.or_eq_true, beq_iff_eq] at h
@@ -420,26 +420,26 @@ theorem lu_step {g : Graph} (hI : SideInv N M g) {op : Op} (ha : Addressed N g o
 
 /-- every call of the history is addressed to the side *in the state it is made in*, and the global
 deletions among them happen while `hid` holds (`hid = True`: the ids of the two sides are disjoint) -/
-def AddressedAll (N : Nat) (globalDelOk : Bool) : Graph → List Op → Prop
+def AddressedAll (S : Nat → Prop) (globalDelOk : Bool) : Graph → List Op → Prop
   | _, [] => True
   | g, op :: ops =>
-    Addressed N g op ∧ (globalDelOk = true ∨ isGlobalDel g op = false) ∧ AddressedAll N globalDelOk (step g op) ops
+    Addressed S g op ∧ (globalDelOk = true ∨ isGlobalDel g op = false) ∧ AddressedAll S globalDelOk (step g op) ops
 
 /-- **histories**: any sequence of calls addressed to the side is a local update -/
-theorem lu_run {gd : Bool} : ∀ (ops : List Op) {g : Graph}, SideInv N M g → (gd = true → IdInv N M g) →
-    AddressedAll N gd g ops → LocalUpd N M g (run g ops) := by
+theorem lu_run {gd : Bool} : ∀ (ops : List Op) {g : Graph}, SideInv S M g → (gd = true → IdInv S M A g) →
+    AddressedAll S gd g ops → LocalUpd S M g (run g ops) := by
   intro ops
   induction ops with
   | nil => intro g _ _ _; exact LocalUpd.refl g
   | cons op ops ih =>
     intro g hI hD ha
     obtain ⟨h1, h2, h3⟩ := ha
-    have hs : LocalUpd N M g (step g op) := by
+    have hs : LocalUpd S M g (step g op) := by
       apply lu_step hI h1
       rcases h2 with h | h
       · exact .inl (hD h)
       · exact .inr h
-    show LocalUpd N M g (run (step g op) ops)
+    show LocalUpd S M g (run (step g op) ops)
     exact hs.trans (ih (hs.inv hI) (fun h => hs.idInv (hD h)) h3)
 
 end Nix.Store.C20
